@@ -576,11 +576,20 @@ func init() {
 		Run: func(c *rt.Ctx) {
 			r := c.RNG(0)
 			types := []reflect.Type{reflect.TypeOf(zoo.QOuter{}), reflect.TypeOf(zoo.QInner{}), reflect.TypeOf(zoo.QLeaf{})}
-			for k := 0; k < 18; k++ {
+			for k := 0; k < 24; k++ {
 				o := qvalue(r, 2)
 				var v any = *o
 				t := types[0]
-				switch k % 6 {
+				switch k % 8 {
+				case 6:
+					q := zoo.QCtxFirst{Cm: zoo.QCtxM{N: r.Intn(9)}, A: 1 + r.Intn(9), B: "b"}
+					v, t = q, reflect.TypeOf(q)
+					if r.Intn(2) == 0 {
+						v, t = &q, reflect.TypeOf(&q)
+					}
+				case 7:
+					q := zoo.QCtxHolder{H: zoo.QCtxFirst{Cm: zoo.QCtxM{N: 1}, A: 2, B: "h"}, O: &zoo.QCtxOnly{Cm: zoo.QCtxM{N: 3}}, Sl: []zoo.QCtxFirst{{Cm: zoo.QCtxM{N: 4}, A: 5}}, X: 6}
+					v, t = q, reflect.TypeOf(q)
 				case 5:
 					// tag options: every nil-able member is nil or empty with probability 1/2
 					q := &zoo.QTagged{N: r.Intn(50), In: o.In, Z: 1, Sk: 9}
